@@ -61,7 +61,7 @@ impl World for MutexWorld {
         &["C01", "C02", "C03", "C04", "C17", "C18"]
     }
     fn configs(&self, tier: Tier) -> Vec<Cfg> {
-        let k = if tier == Tier::Quick { 4 } else { 6 };
+        let k = if tier == Tier::Quick { 5 } else { 6 };
         let mut v = Vec::new();
         for flavour in [FL_LOCAL, FL_SYNC, FL_CHECKED] {
             for mode in [0u8, 1] {
